@@ -74,6 +74,16 @@ fn run<G: GraphLike + PartialEq>(ga: &Value, ha: &Value, be: &str, r: &mut StdRn
             },
         ));
     }
+    // RE-USE of the receiving object (seed C11_f): the first plug deletes the seam's boundary vertices, so the vector backend
+    // holds free names when the SECOND plug appends its operand. h^dagger always fits behind g ; h.
+    if g.outputs().len() == h.inputs().len() {
+        out.push(ev("plug2", be, json!({}), || {
+            let mut x = g.clone();
+            x.plug(&h);
+            x.plug(&h.to_adjoint());
+            x
+        }));
+    }
     out.push(ev("append", be, json!({}), || {
         let mut x = g.clone();
         let vmap = x.append_graph(&h);
